@@ -47,6 +47,7 @@ def run_property(chk, pid, want_parse=True, want_build=False, quick_n=6000, thor
     problems = chk.prove([f"TinsModel.Props.{pid}", "TinsModel.Props.Limits.Wire"],
                          [f"Audit/{pid}.lean", "Audit/LimitsWire.lean"] + FAMILY_AUDITS,
                          want_leanchecker=(chk.tier == "thorough"))
+    problems = gen_limits.name_failures(chk, problems, "Wire")       # name the tie theorems that fail
     rng = random.Random(chk.seed)
     n = quick_n if chk.tier == "quick" else thorough_n
     ops = []
